@@ -16,7 +16,7 @@ from .. import env
 
 env.setup()
 
-from ..core import floats, short_exc  # noqa: E402
+from ..core import digest, floats, short_exc  # noqa: E402
 from ..explore import Chooser, ScriptedGenerator, explore  # noqa: E402
 from . import c01  # noqa: E402
 
@@ -151,6 +151,13 @@ def _layout(a, memory):
     if memory == "strided":
         big = np.repeat(a, 2, axis=0)
         return big[::2]
+    if memory == "readonly":
+        a = a.copy()
+        a.flags.writeable = False
+        return a
+    if memory == "bigendian":
+        # same values in non-native byte order (what a file written on another platform / an HDF5 '>f8' dataset gives)
+        return a.astype(a.dtype.newbyteorder(">")) if a.dtype.kind in "fU" else a
     return a
 
 
@@ -381,8 +388,13 @@ def run_case(case, col, tmp, verbose=False):
         s = build(case["spec"], control, tm, sm, memory=case.get("memory"))
         round_trip(s, cycles, col, case, case["family"], tmp, verbose)
         # the same screen handed over in other memory layouts (column-major name / dose matrices, strided views)
-        if case.get("memory") is None and len(case["spec"]["tn"]) >= 2 and len(case["spec"]["tn"][0]) >= 2:
-            for mem in ("F", "strided"):
+        if case.get("memory") is None:
+            mems = ("F", "strided") if len(case["spec"]["tn"]) >= 2 and len(case["spec"]["tn"][0]) >= 2 else ()
+            # read-only arrays / non-native byte order: quick tier on the deterministic third of the cases whose digest
+            # is divisible by 3 (and on every case of the small name / mask / empty / merged families), thorough on all
+            small = case["family"] in ("names", "obsmask", "empty", "merged")
+            extra = ("readonly", "bigendian") if cycles >= 3 or small or int(digest(case["spec"], control)[:6], 16) % 3 == 0 else ()
+            for mem in mems + extra:
                 c2 = dict(case, memory=mem)
                 round_trip(build(case["spec"], control, tm, sm, memory=mem), cycles, col, c2, case["family"] + "|layout-" + mem, tmp, verbose)
         return
